@@ -28,9 +28,9 @@ CLAIMS = {
                 'grammar accepts that strconv.ParseFloat — a parameter of the model — parses) are steps of the same theorem: kept are the members whose '
                 'value at inner is a number, float64 or json.Number alike, in that relation to the literal (for != the complement); negated existence '
                 'filters `[?(!@ inner)]` (NegFilt.v) keep the members from which inner reaches nothing; filters over a query in disjunctive form '
-                '`[?(b&&b||b&&b...)]` (QueryParse.v, QueryAddr.v; every b one of the three kinds, no blanks) keep the members for which some conjunction '
+                '`[?(b&&b||b&&b...)]` (QueryParse.v, QueryAddr.v, LitParse.v; every b an existence test, its negation, a number comparison or == / != against a plain string, boolean or null literal; no blanks) keep the members for which some conjunction '
                 'has all its basic queries true. '
-                'Not a theorem for the other step kinds (string/bool/null/regex/path operands, negated comparisons, parenthesised sub-queries, blanks inside filters, multi-name selectors, scripts): which AST a given text denotes (parser model vs '
+                'Not a theorem for the other step kinds (regex and path operands, string escapes, negated comparisons, parenthesised sub-queries, blanks inside filters, multi-name selectors, scripts): which AST a given text denotes (parser model vs '
                 'real parser by tree dumps and through the API). Correspondence: generated paths x documents; the extracted '
                 'specification runs next to the model on every case (a model/spec difference is reported).',
         'note': NOTE_COMMON + EVAL_HYP + ' The specification states the library conventions explicitly (whole-match $ operands, both-absent rule of path == path).',
@@ -143,7 +143,7 @@ CLAIMS = {
                 'literal/@/$ operands, && || !) and the same cursors with every function-free path; element-level theorems: only '
                 'operands of the literal\'s JSON type survive validation, json.Number is compared by its float64 value, ordering '
                 'comparators never reach their unchecked assertions. Direct oracle: both decodings of every generated document on the '
-                'real library must select the same members; type of every selected operand.',
+                'real library must select the same members; type of every selected operand. From the path TEXT: with C01_filter_retrieval, C10_number_verdict_decode_invariant, C10_typed_literal_never_matches_a_number and C10_string_literal_matches_only_that_string characterise the verdict of a literal comparison written in a filter (LitParse.v, QueryAddr.v, CmpAddr.v); the harness sends such texts (driver confirms Coq fchain_path) over members of every JSON type in both decodings with the selection computed from the document.',
         'note': NOTE_COMMON + ' Scope of the decoding theorem: no user functions in the path; path == path comparisons have no literal operand.',
         'technique': 'Coq simulation proof on the specification (mutual induction) + two-decoding differential oracle + correspondence'},
     'C11': {
